@@ -15,6 +15,14 @@ CHECKS = {
         'for all policy values. No bound: these are full-domain obligations. Counterexamples are replayed natively (dev + release).',
    design='4/C12', technique='symbolic execution of rustc MIR, integer-encoded SMT (z3), native replay',
    note=TRUST + '; oracle reading of DESIGN 2.4 (every intermediate of the right-hand side must fit 64 bits).'),
+ 'C18': dict(category='model_checking',
+   text='The real from_bytes / try_from / to_bytes / get_compact_size / put_compact_size / get_tu64 MIR is executed on symbolic byte strings: '
+        'every byte string of each length 0..8 (quick) / 0..11 (thorough) is covered by solver-decided path classes and none may end in a panic; '
+        'compact-size round trip is decided for all u64 (no bound); for every record list within the bounds (types full u64) to_bytes equals an '
+        'independent BOLT reference encoding and from_bytes of that encoding returns the records; get_tu64 equals the big-endian value for 0..8 bytes and errs for 9..12. '
+        'Every explored path witness is re-run natively and must agree (translation validation of the bytes intrinsics).',
+   design='4/C18', technique='symbolic execution of rustc MIR over symbolic byte arrays, SMT (z3), exhaustive path enumeration within byte bounds, native replay of every path witness',
+   note=TRUST + '; bytes 1.6 Buf/BufMut contracts in vf/lib_bytes.py; bound: byte strings up to the stated length, record lists up to the stated size.'),
 }
 
 NOT_YET = 'harness not built yet in this session (see DESIGN.md build order); will be claimed once its check exists'
